@@ -567,6 +567,9 @@ pub fn corpus() -> Vec<(String, Target)> {
         ("- 5\n- five 😀\n", TupS),
         ("k1: v1\nk2: 'v 2'\nk3: \"v\\t3\"\n", Map),
         ("{}", Map),
+        // an alias as a mapping value in front of a merge key and of a plain `<<` value
+        ("b: &b {x: 1}\nm:\n  a: *b\n  <<: *b\n  c: <<\n", Json),
+        ("b: &b {x: '1'}\nm: {a: *b, <<: *b}\n", Json),
         ("k: &x val\nj: *x\n", RcMap),
         ("a: &x one\nb: &y two\nc: *x\nd: *y\ne: plain\n", RcMap),
         ("base: &b {x: '1'}\n", Json),
